@@ -49,3 +49,21 @@ type discard struct{}
 func (discard) Write(p []byte) (int, error) { return len(p), nil }
 
 func ioEOF() error { return io.EOF }
+
+// Io_ReadAll: read until EOF into one buffer.
+func Io_ReadAll(r io.Reader) ([]byte, error) {
+	out := vsym.MakeBytes(CopyBuf)
+	total := 0
+	for i := 0; i < 6; i++ {
+		n, err := r.Read(out[total:])
+		total += n
+		if err != nil {
+			if err == io.EOF {
+				return out[:total], nil
+			}
+			return out[:total], err
+		}
+	}
+	vsym.Stop("io.ReadAll: reader did not reach EOF within the read bound")
+	return nil, nil
+}
